@@ -2,6 +2,8 @@ import MgpuProofs.C09Res
 import MgpuProofs.C09Pool
 import MgpuProofs.C09Once2
 import MgpuProofs.C09Live
+import MgpuProofs.C09Fair
+import MgpuProofs.C09Part
 /-! # C09 — work-groups are dispatched exactly once within compute-unit resources
 
 Statements about the models in `MgpuModel/C09_Res.lean` (resource masks and one CU's
@@ -325,5 +327,243 @@ theorem quiescent_is_waiting' (cp : CP) (i : Nat) (cp' : CP) (hdc : DCI cp)
   quiescent_is_waiting cp i cp' hdc h
 
 example : (dispTick (run (mkCP demoCfg 8 demoPool) (demoOps.take 8)) 0).2 = false := by decide
+
+/-! ## run level: answered ⇒ the whole grid, exactly once, completed -/
+
+/-- the state after the demo scenario: both launches answered, everything quiet -/
+def demoEnd : CP := run (mkCP demoCfg 8 demoPool) demoOps
+
+/-- **`launch_rsp_implies_whole_grid`** (trace invariant, every run). Along every op sequence — any
+    number of dispatchers and CUs, overlapping launches (distinct ids), completions in any order, batched,
+    foreign or duplicated, any back-pressure — as soon as the trace holds a `LaunchKernelRsp` for a
+    launch `k` that was delivered: the `MapWGReq`s of `k` in the trace are exactly work-groups
+    `0 … NumWG−1`, each once (in grid order); every one of those requests has completed — its id is in the
+    ghost list `done`, which `completeOne` extends only when the owner consumes a completion message
+    naming a request in flight at it — and is in flight at no dispatcher any more; no completion is ever
+    counted twice (`done` has no duplicates) and the request ids of the trace are `0, 1, 2, …` (so a
+    request id identifies one `MapWGReq`). Proved as an invariant (`WI`, `MgpuProofs/C09Grid.lean`) of
+    the five atomic steps every tick decomposes into (`cpTick_steps`). -/
+theorem launch_rsp_implies_whole_grid (cfg : Cfg) (nd : Nat) (pool : List CU) (ops : List Op)
+    (hids : (launchIds ops).Nodup) (k : Kern) (hk : Op.launch k ∈ ops)
+    (hr : 1 ≤ rspCount (run (mkCP cfg nd pool) ops).log k.id) :
+    mapsOf (run (mkCP cfg nd pool) ops).log k.id = List.range k.numWG ∧
+    (∀ r c idx locs, Ev.map r c k.id idx locs ∈ (run (mkCP cfg nd pool) ops).log →
+      r ∈ (run (mkCP cfg nd pool) ops).done ∧
+      ∀ j, ∀ e ∈ ((run (mkCP cfg nd pool) ops).disp j).inflight, e.1 ≠ r) ∧
+    (run (mkCP cfg nd pool) ops).done.Nodup ∧
+    reqsOf (run (mkCP cfg nd pool) ops).log = List.range (run (mkCP cfg nd pool) ops).nextReq :=
+  rsp_implies_whole_grid cfg nd pool ops hids k hk hr
+
+example : (launchIds demoOps).Nodup ∧ Op.launch ⟨0, 160, 64, 16, 4, 256⟩ ∈ demoOps ∧
+    rspCount demoEnd.log 0 = 1 ∧ mapsOf demoEnd.log 0 = [0, 1, 2] ∧ demoEnd.done = [2, 3, 0, 1] ∧
+    reqsOf demoEnd.log = [0, 1, 2, 3] := by decide
+
+/-- **Every tick is a sequence of five kinds of atomic accounting steps** (`VStep`: an overhead cycle
+    passes; a `MapWGReq` for the next index with a fresh id; the owner consumes the completion of an
+    in-flight request; the response of a fully mapped and completed kernel; an idle dispatcher takes
+    the head launch) on the accounting view of the state — and the sequence is empty exactly when the
+    tick reports no progress. All run-level invariants and the measure below are proved on these five
+    steps. -/
+theorem tick_is_atomic_steps (cfg : Cfg) (nd : Nat) (pool : List CU) (ops : List Op) :
+    Steps (cpTick (run (mkCP cfg nd pool) ops)).2 (run (mkCP cfg nd pool) ops).view
+      (cpTick (run (mkCP cfg nd pool) ops)).1.view :=
+  cpTick_steps _ (dci_run cfg nd pool ops)
+
+example : (cpTick (run (mkCP demoCfg 8 demoPool) (demoOps.take 2))).2 = true := by decide
+
+/-! ## progress measure, `no_stuck`, liveness under a fair environment -/
+
+/-- **`dispatch_progress`.** The lexicographic measure `(U, F, C)` of the accounting view —
+    `U` = Σ over queued launches of `NumWG + 2` + Σ over dispatching kernels of `NumWG − mapped + 1`
+    (work-groups not yet mapped, plus one for taking the launch and one for answering it), `F` =
+    requests in flight, `C` = overhead cycles left — strictly decreases on **every** tick that reports
+    progress, in every reachable state; a tick that reports no progress leaves the accounting view
+    unchanged (it may only move placement cursors or fetch / place one work-group). The order is
+    well-founded, so between two environment moves only finitely many ticks make progress. (Unread
+    completion messages need no component: a message leaves the port only together with at least one
+    in-flight request, which lowers `F`.) -/
+theorem dispatch_progress (cfg : Cfg) (nd : Nat) (pool : List CU) (ops : List Op) :
+    ((cpTick (run (mkCP cfg nd pool) ops)).2 = true →
+      lt3 (cpTick (run (mkCP cfg nd pool) ops)).1.view.mu (run (mkCP cfg nd pool) ops).view.mu) ∧
+    ((cpTick (run (mkCP cfg nd pool) ops)).2 = false →
+      (cpTick (run (mkCP cfg nd pool) ops)).1.view = (run (mkCP cfg nd pool) ops).view) ∧
+    WellFounded lt3 :=
+  ⟨(cpTick_mu _ (dci_run cfg nd pool ops)).1, (cpTick_mu _ (dci_run cfg nd pool ops)).2, lt3_wf⟩
+
+example : ((List.range 12).map fun n => (run (mkCP demoCfg 8 demoPool) (demoOps.take (n + 2))).view.mu) =
+    [(8, 0, 0), (6, 0, 0), (6, 0, 0), (5, 1, 0), (5, 1, 0), (5, 1, 0), (2, 4, 0), (2, 4, 0), (2, 3, 0),
+     (2, 3, 0), (2, 1, 1), (2, 1, 0)] := by decide
+
+/-- what the environment may still owe the command processor -/
+def EnvOwes (cp : CP) : Prop :=
+  cp.cuRoom = 0 ∨ cp.drvRoom = 0 ∨
+  (∃ j r, (cp.disp j).inFl r ∧ ∀ m ∈ cp.cuIn, r ∉ m) ∨
+  (∃ ids rest, cp.cuIn = ids :: rest ∧ ∀ r ∈ ids, ∀ j, ¬ (cp.disp j).inFl r)
+
+/-- **`no_stuck`.** In every reachable state with at least one dispatcher, while some launch is
+    unanswered (queued or being dispatched): a tick makes progress, or ends in a fault, or the command
+    processor waits for something the environment owes — room in the CU-facing or the driver-facing
+    port, the completion of an in-flight request that has not been delivered yet, or the removal of a
+    message at the head of the port that names no in-flight request (a bogus completion, which the Go
+    code leaves in the port for ever) — or nothing at all is in flight and every CU refused the next
+    work-group of a dispatcher in this very tick (`RefusedIdle`: the group does not fit the hardware;
+    the real dispatcher then waits for ever, see the example below). -/
+theorem no_stuck (cfg : Cfg) (nd : Nat) (pool : List CU) (ops : List Op) (hnd : 0 < nd)
+    (hun : ¬ AllAnswered (run (mkCP cfg nd pool) ops)) :
+    (cpTick (run (mkCP cfg nd pool) ops)).2 = true ∨
+    (cpTick (run (mkCP cfg nd pool) ops)).1.fault ≠ none ∨
+    EnvOwes (run (mkCP cfg nd pool) ops) ∨ RefusedIdle (run (mkCP cfg nd pool) ops) := by
+  have hdc := dci_run cfg nd pool ops
+  have hlen : 0 < (run (mkCP cfg nd pool) ops).disps.length := by
+    have := fair_len cfg nd pool ops
+    omega
+  by_cases hb : (cpTick (run (mkCP cfg nd pool) ops)).2 = true
+  · exact Or.inl hb
+  · by_cases hf : (cpTick (run (mkCP cfg nd pool) ops)).1.fault = none
+    · right; right
+      by_cases henv : EnvReady (run (mkCP cfg nd pool) ops)
+      · right
+        have hb' : (cpTick (run (mkCP cfg nd pool) ops)).2 = false := by
+          cases hx : (cpTick (run (mkCP cfg nd pool) ops)).2 with
+          | true => exact absurd hx hb
+          | false => rfl
+        exact (no_stuck_core _ hdc hlen hb' hf henv).resolve_left hun
+      · left
+        unfold EnvReady at henv
+        unfold EnvOwes
+        by_cases h1 : (run (mkCP cfg nd pool) ops).cuRoom = 0
+        · exact Or.inl h1
+        by_cases h2 : (run (mkCP cfg nd pool) ops).drvRoom = 0
+        · exact Or.inr (Or.inl h2)
+        by_cases h3 : ∃ j r, ((run (mkCP cfg nd pool) ops).disp j).inFl r ∧
+            ∀ m ∈ (run (mkCP cfg nd pool) ops).cuIn, r ∉ m
+        · exact Or.inr (Or.inr (Or.inl h3))
+        by_cases h4 : ∃ ids rest, (run (mkCP cfg nd pool) ops).cuIn = ids :: rest ∧
+            ∀ r ∈ ids, ∀ j, ¬ ((run (mkCP cfg nd pool) ops).disp j).inFl r
+        · exact Or.inr (Or.inr (Or.inr h4))
+        exfalso
+        apply henv
+        refine ⟨by omega, by omega, ?_, ?_⟩
+        · intro j r hin
+          apply Classical.byContradiction
+          intro hno
+          exact h3 ⟨j, r, hin, fun m hm hr => hno ⟨m, hm, hr⟩⟩
+        · intro ids rest hcu
+          apply Classical.byContradiction
+          intro hno
+          exact h4 ⟨ids, rest, hcu, fun r hr j hin => hno ⟨r, hr, j, hin⟩⟩
+    · exact Or.inr (Or.inl hf)
+
+/-- a work-group asking for 200 SGPRs never fits the 64-SGPR demo CUs: nothing is in flight, the ports
+    have room, nothing is owed — and the tick makes no progress, for ever -/
+def tooBigOps : List Op := [.launch ⟨0, 64, 64, 200, 4, 256⟩, .tick, .tick]
+
+example : ¬ AllAnswered (run (mkCP demoCfg 2 demoPool) tooBigOps) ∧
+    (cpTick (run (mkCP demoCfg 2 demoPool) tooBigOps)).2 = false ∧
+    (cpTick (run (mkCP demoCfg 2 demoPool) tooBigOps)).1.fault = none ∧
+    (run (mkCP demoCfg 2 demoPool) tooBigOps).cuRoom = 4096 ∧
+    (run (mkCP demoCfg 2 demoPool) tooBigOps).cuIn = [] ∧
+    (run (mkCP demoCfg 2 demoPool) tooBigOps).disps.map (·.inflight) = [[], []] :=
+  ⟨fun h => absurd (h.2 0) (by decide), by decide, by decide, by decide, by decide, by decide⟩
+
+/-- **`fair_environment_answers_every_launch`** (temporal liveness). Let any finite op sequence `ops0`
+    (it contains all the launches, ids distinct) be followed by an infinite launch-free schedule of
+    ticks, completion messages and port-room changes. If no fault occurs and the environment is fair —
+    again and again a tick happens at a moment when it owes nothing (`EnvReady`: both ports have room,
+    the completion of every in-flight request has been delivered, the head message names an in-flight
+    request) — then after finitely many moves every launch of `ops0` has exactly one
+    `LaunchKernelRsp` and its whole grid `0 … NumWG−1` mapped exactly once, **or** a tick is reached
+    in which nothing is in flight anywhere and every CU refuses the next work-group of a dispatcher (a
+    group that does not fit an idle pool; the Go dispatcher hangs there as well). Proof: after the last
+    launch the measure of `dispatch_progress` never increases, so from some point on no tick makes
+    progress; the next fair tick then falls under `no_stuck`. -/
+theorem fair_environment_answers_every_launch (cfg : Cfg) (nd : Nat) (pool : List CU) (ops0 : List Op)
+    (sched : Nat → Op) (hnd : 0 < nd) (hids : (launchIds ops0).Nodup)
+    (hnl : ∀ n k, sched n ≠ .launch k)
+    (hfault : ∀ n, (run (mkCP cfg nd pool) (ops0 ++ prefixOf sched n)).fault = none)
+    (hfair : ∀ n, ∃ m, n ≤ m ∧ sched m = .tick ∧
+      EnvReady (run (mkCP cfg nd pool) (ops0 ++ prefixOf sched m))) :
+    ∃ N, (∀ k, Op.launch k ∈ ops0 →
+            rspCount (run (mkCP cfg nd pool) (ops0 ++ prefixOf sched N)).log k.id = 1 ∧
+            mapsOf (run (mkCP cfg nd pool) (ops0 ++ prefixOf sched N)).log k.id = List.range k.numWG) ∨
+         RefusedIdle (run (mkCP cfg nd pool) (ops0 ++ prefixOf sched N)) := by
+  obtain ⟨N, hN⟩ := fair_run_answers cfg nd pool ops0 sched hnd hnl hfault hfair
+  refine ⟨N, ?_⟩
+  rcases hN with hN | hN
+  · left
+    intro k hk
+    have hids' : (launchIds (ops0 ++ prefixOf sched N)).Nodup := by
+      rw [launchIds_prefix ops0 sched hnl N]; exact hids
+    have hk' : Op.launch k ∈ ops0 ++ prefixOf sched N := List.mem_append_left _ hk
+    have h1 := all_answered_rsp cfg nd pool _ hids' hN k hk'
+    exact ⟨h1, (rsp_implies_whole_grid cfg nd pool _ hids' k hk' (by omega)).1⟩
+  · exact Or.inr hN
+
+/-- the hypotheses of `fair_environment_answers_every_launch` are met by the demo scenario followed by
+    ticks for ever (no fault, nothing in flight, no unread message, both ports have room) -/
+example : ∃ N, (∀ k, Op.launch k ∈ demoOps →
+      rspCount (run (mkCP demoCfg 8 demoPool) (demoOps ++ prefixOf (fun _ => Op.tick) N)).log k.id = 1 ∧
+      mapsOf (run (mkCP demoCfg 8 demoPool) (demoOps ++ prefixOf (fun _ => Op.tick) N)).log k.id
+        = List.range k.numWG) ∨
+    RefusedIdle (run (mkCP demoCfg 8 demoPool) (demoOps ++ prefixOf (fun _ => Op.tick) N)) := by
+  -- the end state is a fixed point of the tick
+  have demo_forever : ∀ n, run (mkCP demoCfg 8 demoPool) (demoOps ++ prefixOf (fun _ => Op.tick) n) = demoEnd := by
+    intro n
+    induction n with
+    | zero => simp [prefixOf, demoEnd]
+    | succ n ih =>
+      rw [run_prefix_succ, ih]
+      show (cpTick demoEnd).1 = demoEnd
+      decide
+  refine fair_environment_answers_every_launch demoCfg 8 demoPool demoOps (fun _ => Op.tick) (by decide)
+    (by decide) (fun n k h => by cases h) (fun n => by rw [demo_forever]; decide) ?_
+  intro n
+  refine ⟨n, Nat.le_refl _, rfl, ?_⟩
+  rw [demo_forever]
+  have hnone : ∀ j r, ¬ (demoEnd.disp j).inFl r := by
+    intro j r
+    have := disp_forall demoEnd (fun d => d.inflight = []) rfl (by decide) j
+    simp [Disp.inFl, this]
+  refine ⟨by decide, by decide, fun j r h => absurd h (hnone j r), ?_⟩
+  intro ids rest h
+  have : demoEnd.cuIn = [] := by decide
+  rw [this] at h; cases h
+
+/-! ## the partition placement algorithm -/
+
+/-- **`partition_conserves`.** Model `MgpuModel/C09_Part.lean` of `partitionAlgorithm` (per-CU
+    partitions whose builders skipped `i·⌈n/numCU⌉` groups, pending work-groups, work stealing by a CU
+    whose partition is used up), driven like a dispatcher (`for HasNext { Next }`, at most `fuel`
+    calls), with **any** pattern of CU refusals (`fails`), any grid size and any positive number of CUs:
+    no work-group is offered twice, none outside the grid, every placement names an existing CU; and when
+    the loop ends because `HasNext` is false, the offered work-groups are a permutation of
+    `0 … numWG−1` — each exactly once. -/
+theorem partition_conserves (numWG n fuel : Nat) (fails : List Bool) (hn : 0 < n) :
+    (wgsOf (Part.run fuel (Part.start numWG n) fails []).1).Nodup ∧
+    (∀ w ∈ wgsOf (Part.run fuel (Part.start numWG n) fails []).1, w < numWG) ∧
+    (∀ c w, some (c, w) ∈ (Part.run fuel (Part.start numWG n) fails []).1 → c < n) ∧
+    ((Part.run fuel (Part.start numWG n) fails []).2 = false →
+      (wgsOf (Part.run fuel (Part.start numWG n) fails []).1).Perm (List.range numWG)) :=
+  part_conserves numWG n fuel fails hn
+
+/-- **`partition_offers_every_group`** (the loop does not get stuck). When the CUs refuse only finitely
+    often (`countT fails` refusals, in any positions), `numWG + countT fails` calls of `Next` suffice:
+    every call places a work-group or uses up a refusal (while groups are left, some partition can
+    offer one to its own CU and the loop of `Next` visits every partition). The loop therefore ends
+    with `HasNext = false`, and the work-groups offered are exactly `0 … numWG−1`, each once. -/
+theorem partition_offers_every_group (numWG n fuel : Nat) (fails : List Bool) (hn : 0 < n)
+    (hfuel : numWG + countT fails ≤ fuel) :
+    (Part.run fuel (Part.start numWG n) fails []).2 = false ∧
+    (wgsOf (Part.run fuel (Part.start numWG n) fails []).1).Perm (List.range numWG) :=
+  ⟨part_never_stuck numWG n fuel fails hn hfuel,
+   (part_conserves numWG n fuel fails hn).2.2.2 (part_never_stuck numWG n fuel fails hn hfuel)⟩
+
+example : countT [true, true, false, true] = 3 ∧
+    wgsOf (Part.run 8 (Part.start 5 4) [true, true, false, true] []).1 = [4, 2, 0, 3, 1] := by decide
+
+/-- 5 work-groups on 4 CUs, the first, second and fourth reservation refused: CU 2 is served first, CU 1
+    takes work-group 2 in the second round, nothing is lost -/
+example : Part.run 40 (Part.start 5 4) [true, true, false, true] [] =
+    ([some (2, 4), some (1, 2), some (0, 0), some (1, 3), some (0, 1)], false) := by decide
 
 end C09
